@@ -55,6 +55,8 @@ impl<const M: u16> Index for TinyIdx<M> {
 const TINY_CAPS: [usize; 3] = [5, 9, 14];
 type FastTiny<const M: u16> = GenericFastGraph<SimpleTermIndex<TinyIdx<M>>>;
 type LightTiny<const M: u16> = GenericLightGraph<SimpleTermIndex<TinyIdx<M>>>;
+type FastDsTiny<const M: u16> = sophia_inmem::dataset::GenericFastDataset<SimpleTermIndex<TinyIdx<M>>>;
+type LightDsTiny<const M: u16> = sophia_inmem::dataset::GenericLightDataset<SimpleTermIndex<TinyIdx<M>>>;
 
 // ---------------------------------------------------------------------------------------------
 // pipeline description
@@ -120,6 +122,15 @@ enum Consumer {
     QuadsTry,
     QuadsCollect,
     SerNq,
+    /// the quad side into the real indexed datasets (their own insert_all / remove_all /
+    /// from_quad_source), with tiny term indexes, and into the TriG serializer
+    QInsertFastTiny(usize),
+    QInsertLightTiny(usize),
+    QRemoveFast,
+    QCollectFast,
+    QCollectLight,
+    SerTrig,
+    SerTrigPretty,
     IterCollect,
     IterStep,
 }
@@ -156,6 +167,16 @@ const CONSUMERS: &[Consumer] = &[
     Consumer::QuadsTry,
     Consumer::QuadsCollect,
     Consumer::SerNq,
+    Consumer::QInsertFastTiny(0),
+    Consumer::QInsertFastTiny(1),
+    Consumer::QInsertFastTiny(2),
+    Consumer::QInsertLightTiny(0),
+    Consumer::QInsertLightTiny(2),
+    Consumer::QRemoveFast,
+    Consumer::QCollectFast,
+    Consumer::QCollectLight,
+    Consumer::SerTrig,
+    Consumer::SerTrigPretty,
     Consumer::IterCollect,
     Consumer::IterStep,
 ];
@@ -164,8 +185,46 @@ impl Consumer {
     fn is_serializer(self) -> bool {
         matches!(
             self,
-            Consumer::SerNt | Consumer::SerTtl | Consumer::SerTtlPretty | Consumer::SerXml | Consumer::SerNq
+            Consumer::SerNt
+                | Consumer::SerTtl
+                | Consumer::SerTtlPretty
+                | Consumer::SerXml
+                | Consumer::SerNq
+                | Consumer::SerTrig
+                | Consumer::SerTrigPretty
         )
+    }
+    /// consumers that take quads: driven through `to_quads()` and the quad-side adapters
+    fn quad_side(self) -> bool {
+        matches!(
+            self,
+            Consumer::QuadsTry
+                | Consumer::QuadsCollect
+                | Consumer::SerNq
+                | Consumer::QInsertFlaky
+                | Consumer::QRemoveFlaky
+                | Consumer::QInsertFastTiny(_)
+                | Consumer::QInsertLightTiny(_)
+                | Consumer::QRemoveFast
+                | Consumer::QCollectFast
+                | Consumer::QCollectLight
+                | Consumer::SerTrig
+                | Consumer::SerTrigPretty
+        )
+    }
+    /// The triple-side consumer with the same contract: the oracle treats a dataset like the
+    /// graph of its default graph (`to_quads()` only produces default-graph quads).
+    fn oracle_equiv(self) -> Consumer {
+        match self {
+            Consumer::QInsertFastTiny(i) => Consumer::InsertFastTiny(i),
+            Consumer::QInsertLightTiny(i) => Consumer::InsertLightTiny(i),
+            Consumer::QRemoveFast => Consumer::RemoveFast,
+            Consumer::QCollectFast => Consumer::CollectFast,
+            Consumer::QCollectLight => Consumer::CollectLight,
+            Consumer::SerTrig => Consumer::SerTtl,
+            Consumer::SerTrigPretty => Consumer::SerTtlPretty,
+            other => other,
+        }
     }
     fn closure_can_fail(self) -> bool {
         matches!(
@@ -181,7 +240,7 @@ impl Consumer {
     }
     /// documented as buffering: consumes the whole source before producing anything
     fn buffering(self) -> bool {
-        matches!(self, Consumer::SerTtlPretty)
+        matches!(self, Consumer::SerTtlPretty | Consumer::SerTrigPretty)
     }
     fn needs_iter(self) -> bool {
         matches!(self, Consumer::IterCollect | Consumer::IterStep)
@@ -487,6 +546,72 @@ fn graph_content<G: Graph>(g: &G) -> Vec<MTriple> {
     content
 }
 
+/// The same for a dataset that only ever received default-graph quads: content as `quads()`
+/// lists it, and every member looked up through all 15 other bound/unbound shapes.
+fn dataset_content<D: sophia_api::dataset::Dataset>(d: &D) -> Vec<MTriple> {
+    use sophia_api::quad::Quad;
+    let content: Vec<MTriple> = d
+        .quads()
+        .map(|q| {
+            let q = q.unwrap_or_else(|_| panic!("ORACLE: dataset iteration failed"));
+            if q.g().is_some() {
+                panic!("ORACLE: to_quads() produced a named graph");
+            }
+            triple_from([q.s(), q.p(), q.o()])
+        })
+        .collect();
+    let distinct: BTreeSet<&MTriple> = content.iter().collect();
+    let dg: Option<&SimpleTerm> = None;
+    for t in &distinct {
+        let st = triple_to_simple(t);
+        let listed = content.iter().filter(|x| x == t).count();
+        for shape in 1u8..16 {
+            let qcount = |it: &mut dyn Iterator<Item = MTriple>| it.filter(|x| &x == t).count();
+            macro_rules! q {
+                ($s:expr, $p:expr, $o:expr, $g:expr) => {
+                    qcount(&mut d.quads_matching($s, $p, $o, $g).map(|q| {
+                        let q = q.unwrap_or_else(|_| panic!("ORACLE: dataset pattern query failed"));
+                        triple_from([q.s(), q.p(), q.o()])
+                    }))
+                };
+            }
+            let (s, p, o) = (&st[0], &st[1], &st[2]);
+            let found = match shape {
+                1 => q!([s], Any, Any, Any),
+                2 => q!(Any, [p], Any, Any),
+                3 => q!([s], [p], Any, Any),
+                4 => q!(Any, Any, [o], Any),
+                5 => q!([s], Any, [o], Any),
+                6 => q!(Any, [p], [o], Any),
+                7 => q!([s], [p], [o], Any),
+                8 => q!(Any, Any, Any, [dg]),
+                9 => q!([s], Any, Any, [dg]),
+                10 => q!(Any, [p], Any, [dg]),
+                11 => q!([s], [p], Any, [dg]),
+                12 => q!(Any, Any, [o], [dg]),
+                13 => q!([s], Any, [o], [dg]),
+                14 => q!(Any, [p], [o], [dg]),
+                _ => q!([s], [p], [o], [dg]),
+            };
+            if found != listed {
+                INCOHERENT.with(|i| {
+                    i.borrow_mut().get_or_insert_with(|| {
+                        format!(
+                            "quads() lists {} {listed} time(s) but the pattern query binding {}{}{}{} finds it {found} time(s)",
+                            fmt_ts(std::slice::from_ref(*t)),
+                            if shape & 1 != 0 { "s" } else { "?" },
+                            if shape & 2 != 0 { "p" } else { "?" },
+                            if shape & 4 != 0 { "o" } else { "?" },
+                            if shape & 8 != 0 { "g" } else { "?" },
+                        )
+                    });
+                });
+            }
+        }
+    }
+    content
+}
+
 fn count_eq<'a, I, T, E>(it: I, t: &MTriple) -> usize
 where
     I: Iterator<Item = Result<T, E>> + 'a,
@@ -559,6 +684,21 @@ impl Drive<'_> {
         self.out.count = c;
         self.out.res = res;
         self.out.state = Some(graph_content(&g));
+    }
+
+    fn qinsert_into<D, Q>(&mut self, mut d: D, qs: Q)
+    where
+        D: sophia_api::dataset::MutableDataset,
+        Q: QuadSource,
+    {
+        for t in simple(self.pre) {
+            d.insert(&t[0], &t[1], &t[2], None::<&SimpleTerm>)
+                .unwrap_or_else(|_| panic!("ORACLE: pre-population must fit"));
+        }
+        let (c, res) = stream_res(d.insert_all(qs));
+        self.out.count = c;
+        self.out.res = res;
+        self.out.state = Some(dataset_content(&d));
     }
 
     fn collect_into<G, T>(&mut self, ts: T)
@@ -738,7 +878,16 @@ where
                 self.out.res = stream_res(ser.serialize_triples(ts).map(|_| ())).1;
                 self.finish_writer(&w);
             }
-            Consumer::QuadsTry | Consumer::QuadsCollect | Consumer::SerNq => {
+            Consumer::QuadsTry
+            | Consumer::QuadsCollect
+            | Consumer::SerNq
+            | Consumer::QInsertFastTiny(_)
+            | Consumer::QInsertLightTiny(_)
+            | Consumer::QRemoveFast
+            | Consumer::QCollectFast
+            | Consumer::QCollectLight
+            | Consumer::SerTrig
+            | Consumer::SerTrigPretty => {
                 let qops = self.qops;
                 with_qchain(ts.to_quads(), qops, self);
             }
@@ -795,6 +944,42 @@ where
                 self.out.count = c;
                 self.out.res = res;
                 self.out.state = Some(graph_content(&d.0));
+            }
+            Consumer::QInsertFastTiny(0) => self.qinsert_into(FastDsTiny::<5>::new(), qs),
+            Consumer::QInsertFastTiny(1) => self.qinsert_into(FastDsTiny::<9>::new(), qs),
+            Consumer::QInsertFastTiny(_) => self.qinsert_into(FastDsTiny::<14>::new(), qs),
+            Consumer::QInsertLightTiny(0) => self.qinsert_into(LightDsTiny::<5>::new(), qs),
+            Consumer::QInsertLightTiny(1) => self.qinsert_into(LightDsTiny::<9>::new(), qs),
+            Consumer::QInsertLightTiny(_) => self.qinsert_into(LightDsTiny::<14>::new(), qs),
+            Consumer::QRemoveFast => {
+                use sophia_api::dataset::MutableDataset;
+                let mut d = sophia_inmem::dataset::FastDataset::new();
+                for t in simple(self.pre) {
+                    d.insert(&t[0], &t[1], &t[2], None::<&SimpleTerm>)
+                        .unwrap_or_else(|_| panic!("ORACLE: pre-population must fit"));
+                }
+                let (c, res) = stream_res(d.remove_all(qs));
+                self.out.count = c;
+                self.out.res = res;
+                self.out.state = Some(dataset_content(&d));
+            }
+            Consumer::QCollectFast => {
+                let (d, res) = stream_res(qs.collect_quads::<sophia_inmem::dataset::FastDataset>());
+                self.out.res = res;
+                self.out.state = d.map(|d| dataset_content(&d));
+            }
+            Consumer::QCollectLight => {
+                let (d, res) = stream_res(qs.collect_quads::<sophia_inmem::dataset::LightDataset>());
+                self.out.res = res;
+                self.out.state = d.map(|d| dataset_content(&d));
+            }
+            Consumer::SerTrig | Consumer::SerTrigPretty => {
+                let w = SimWriter::new(self.wplan());
+                let cfg = sophia_turtle::serializer::trig::TrigConfig::new()
+                    .with_pretty(self.consumer == Consumer::SerTrigPretty);
+                let mut ser = sophia_turtle::serializer::trig::TrigSerializer::new_with_config(w.handle(), cfg);
+                self.out.res = stream_res(ser.serialize_quads(qs).map(|_| ())).1;
+                self.finish_writer(&w);
             }
             Consumer::QuadsCollect => {
                 let (d, res) = stream_res(qs.collect_quads::<Vec<Spog<SimpleTerm<'static>>>>());
@@ -1232,7 +1417,8 @@ struct Case<'a> {
 
 fn check(case: &Case<'_>, twin: &Outcome, out: &Outcome) -> Verdict {
     let setup = case.setup;
-    let c = setup.consumer;
+    let real_consumer = setup.consumer;
+    let c = setup.consumer.oracle_equiv();
     let d = &case.desc;
     let ops = ops_of(setup);
     let n = setup.items.len();
@@ -1283,7 +1469,7 @@ fn check(case: &Case<'_>, twin: &Outcome, out: &Outcome) -> Verdict {
         _ => cap_fault,
     };
 
-    let oracle = |name: &str| format!("{name}/{:?}/{:?}", setup.src, c).replace(['(', ')'], "_");
+    let oracle = |name: &str| format!("{name}/{:?}/{:?}", setup.src, real_consumer).replace(['(', ')'], "_");
 
     // A read fault and a term-index capacity fault in the same execution: which comes first
     // depends on how far the parser had read; accept exactly the two consistent outcomes.
@@ -1782,7 +1968,7 @@ fn run_c15(ctx: &mut Ctx) -> Verdict {
             None => ops.push((OpKind::Map, !0, 1)),
         }
     }
-    let qops: Vec<(OpKind, u64, u8)> = if matches!(consumer, Consumer::QuadsTry | Consumer::QuadsCollect | Consumer::SerNq | Consumer::QInsertFlaky | Consumer::QRemoveFlaky) {
+    let qops: Vec<(OpKind, u64, u8)> = if consumer.quad_side() {
         (0..ctx.tape.below(3))
             .map(|_| {
                 let kind = [OpKind::Filter, OpKind::Map, OpKind::FilterMap][ctx.tape.below(3)];
@@ -1808,7 +1994,7 @@ fn run_c15(ctx: &mut Ctx) -> Verdict {
     // effective / removals not all void) plus a foreign one
     let mut pre: Vec<MTriple> = vec![];
     if matches!(
-        consumer,
+        consumer.oracle_equiv(),
         Consumer::InsertVec | Consumer::InsertBTree | Consumer::InsertHash | Consumer::InsertFastTiny(_) | Consumer::InsertLightTiny(_) | Consumer::RemoveVec | Consumer::RemoveFast
             | Consumer::InsertFlaky | Consumer::RemoveFlaky | Consumer::QInsertFlaky | Consumer::QRemoveFlaky
     ) {
@@ -1820,7 +2006,7 @@ fn run_c15(ctx: &mut Ctx) -> Verdict {
         if ctx.tape.flag() {
             pre.push([MTerm::iri("http://ex.org/s63"), MTerm::iri("http://ex.org/p"), MTerm::iri("http://ex.org/o")]);
         }
-        if let Consumer::InsertFastTiny(i) | Consumer::InsertLightTiny(i) = consumer {
+        if let Consumer::InsertFastTiny(i) | Consumer::InsertLightTiny(i) = consumer.oracle_equiv() {
             // pre-population must fit
             while index_full_at(&[], &pre, TINY_CAPS[i]).is_some() {
                 pre.pop();
@@ -2033,7 +2219,7 @@ fn run_c15(ctx: &mut Ctx) -> Verdict {
         ev!(ctx, "{kf:?} -> {} consumed={} written={}", out.res.name(), out.consumed.len(), out.written.len());
         check(&case, &twin, &out)?;
     }
-    if let Consumer::InsertFastTiny(i) | Consumer::InsertLightTiny(i) = setup.consumer {
+    if let Consumer::InsertFastTiny(i) | Consumer::InsertLightTiny(i) = setup.consumer.oracle_equiv() {
         if index_full_at(&setup.pre, &expected, TINY_CAPS[i]).is_some() {
             ctx.fault("sink_term_index_full");
             ctx.fault_in_op = true;
@@ -2052,7 +2238,7 @@ fn warmup() {
         [MTerm::iri("http://ex.org/s2"), MTerm::iri("http://ex.org/q"), MTerm::iri("http://ex.org/o")],
     ];
     for src in [SrcKind::JsonLdParser, SrcKind::NtParser, SrcKind::TurtleParser, SrcKind::XmlParser, SrcKind::NqParser, SrcKind::GnqParser, SrcKind::TrigParser, SrcKind::Iter] {
-        for consumer in [Consumer::TryForEach, Consumer::SerNt, Consumer::SerTtl, Consumer::SerTtlPretty, Consumer::SerXml, Consumer::SerNq, Consumer::CollectFast, Consumer::InsertLightTiny(2)] {
+        for consumer in [Consumer::TryForEach, Consumer::SerNt, Consumer::SerTtl, Consumer::SerTtlPretty, Consumer::SerXml, Consumer::SerNq, Consumer::CollectFast, Consumer::InsertLightTiny(2), Consumer::SerTrig, Consumer::SerTrigPretty, Consumer::QCollectFast, Consumer::QInsertLightTiny(2)] {
             let setup = Setup {
                 hs: 0,
                 batch: vec![],
